@@ -46,6 +46,15 @@ type Step struct {
 	Raw  string   `json:"raw,omitempty"`  // send: literal record instead of Mem
 	Soft bool     `json:"soft,omitempty"` // gate: absence of the goroutine is not a divergence
 	From string   `json:"from,omitempty"` // callback/notify issued from the handler with this tag
+	Proj *Proj    `json:"proj,omitempty"` // the model's state after this step, as far as VerifSnapshot shows it
+}
+
+// Proj is the projection of a ServerImpl state on what VerifSnapshot exposes.
+type Proj struct {
+	Qlen      int      `json:"qlen"`
+	Reserved  []string `json:"reserved"`
+	Callbacks []string `json:"callbacks"`
+	Running   bool     `json:"running"`
 }
 
 // Opts are the server options of a scenario.
@@ -494,6 +503,18 @@ func (r *runner) doStep(st Step) {
 		r.t.Fatalf("unknown step %q", st.A)
 	}
 	s.Settle()
+	if st.Proj != nil && r.stats["diverged"]+s.Diverged == 0 && r.stats["drift"] == 0 {
+		// binding of the Impl spec: the real server's bookkeeping after this step must be the model's
+		// (diagnostic only: a mismatch is reported as conformance drift, never as a verdict)
+		sn := r.srv.VerifSnapshot()
+		if sn.QueueLen != st.Proj.Qlen || fmt.Sprint(sn.Reserved) != fmt.Sprint(st.Proj.Reserved) ||
+			fmt.Sprint(sn.Callbacks) != fmt.Sprint(st.Proj.Callbacks) || sn.Running != st.Proj.Running {
+			r.stats["drift"]++
+			r.rec.Log("Drift", "step", st.A, "site", st.Site, "model", fmt.Sprintf("%+v", *st.Proj), "code", fmt.Sprintf("%+v", sn))
+		} else {
+			r.stats["projok"]++
+		}
+	}
 	if len(s.Waiting) == 0 {
 		r.rec.Log("Quiescent")
 	}
